@@ -96,6 +96,14 @@ func Root() string {
 	return "/verif"
 }
 
+// BinDir is where the driver put the helper binaries it built.
+func BinDir() string {
+	if d := os.Getenv("VERIF_BIN"); d != "" {
+		return d
+	}
+	return filepath.Join(Root(), "harness", "bin")
+}
+
 func Tier() string {
 	if t := os.Getenv("VERIF_TIER"); t == "thorough" {
 		return "thorough"
@@ -197,6 +205,9 @@ func (ck *Check) Main(t *testing.T) {
 	outDir := os.Getenv("VERIF_OUT")
 	if outDir == "" {
 		outDir = filepath.Join(Root(), "evidence", ".shards")
+		if d := os.Getenv("VERIF_SHARDS"); d != "" {
+			outDir = d
+		}
 	}
 	os.MkdirAll(outDir, 0o755)
 	shardName := os.Getenv("VERIF_SHARD")
